@@ -219,6 +219,9 @@ def correspondence_cases(rng, tier, cases):
         texts.append(("depthn:%d" % d, "a * - + - b", d))
     for i, t in enumerate(["CURRENT_DATE", "current_time + 1", '"CURRENT_DATE"', "CURRENT_DATE . x", "CURRENT_TIMESTAMP ( )", "LOCALTIME [ 1 ]", "t . LOCALTIMESTAMP", "CURRENT_USER"]):
         texts.append(("niladic:%d" % i, t, 0))
+    # keywords whose canonical (upper-case) spelling the parser stores (repo a8df5c2), written in lower / mixed case
+    for i, t in enumerate(["a and b", "a Or b oR c AND d", "a like 'x'", "a NOT Like b", "a iLike b and c ilike d", "a not ILIKE b or c", "a regexp b", "( a and b ) or not c"]):
+        texts.append(("kwcase:%d" % i, t, 0))
     return texts
 
 
